@@ -2,6 +2,7 @@ SPECIFICATION Spec
 CONSTANTS
   MaxLen = 2
   Emit = TRUE
+  FamOf <- MCFamOf
 INVARIANT AlgRefinesRef
 INVARIANT DevOnlyDictKwargs
 INVARIANT MachineIsFold
